@@ -113,7 +113,9 @@ def loadtxt(
         # savetxt writes the header (whose keys can be any character) as UTF-8,
         # whatever the locale; other first lines only need their ASCII prefix.
         if header.startswith((comments + "numpoly:").encode("utf-8")):
-            header = header.decode("utf-8")
+            header = header.decode(
+                "utf-8" if encoding in (None, "bytes") else encoding
+            )
         else:
             header = header.decode("latin-1")
 
@@ -137,6 +139,11 @@ def loadtxt(
         groups = match.groups()
         names = tuple(groups[0].split(","))
         keys = groups[1].split(",")
+        if any(len(key) != len(names) for key in keys):
+            # e.g. a header written in another encoding than it is read in
+            raise ValueError(
+                f"numpoly header keys {keys} do not match indeterminants {names}"
+            )
         shape = [int(idx) for idx in groups[2].split(",") if idx]
         dtype = numpy.dtype([(key, array.dtype) for key in keys])
         # numpy.loadtxt squeezes single rows and single columns
